@@ -246,13 +246,14 @@ where
             _ => {
                 let mut updated = false;
                 let mut offset = 0;
+                let sortedlen = self.array.len(); //new items are appended after this and are not to be searched
                 for item in other.iter() {
                     if self.sorted && other.sorted {
-                        //optimisation if both are sorted
-                        match self.array[offset..].binary_search(&item) {
-                            Ok(index) => offset = index + 1,
+                        //optimisation if both are sorted (the index found is relative to the offset)
+                        match self.array[offset..sortedlen].binary_search(&item) {
+                            Ok(index) => offset += index + 1,
                             Err(index) => {
-                                offset = index + 1;
+                                offset += index;
                                 updated = true;
                                 self.add_unchecked(item);
                             }
@@ -308,13 +309,14 @@ where
         self.array.to_mut().retain(|x| {
             if self.sorted && other.sorted {
                 //optimisation if both are sorted
+                //(the index found is relative to the offset)
                 match other.array[offset..].binary_search(x) {
                     Ok(index) => {
-                        offset = index + 1;
+                        offset += index + 1;
                         true
                     }
                     Err(index) => {
-                        offset = index + 1;
+                        offset += index;
                         false
                     }
                 }
